@@ -430,6 +430,7 @@ func (x *executor) verify(key string) (err error) {
 	}
 	x.pkg = x.fn.Pkg.Pkg
 	x.c = newCtx(x.fc.mode == "bv")
+	x.c.wrap64 = x.fc.wrap64
 	st := newState()
 	fr := x.newFrame(x.fn, key)
 	fr.top = true
